@@ -68,7 +68,9 @@ def random_genotype(rng, gene):
         cfg = gene.alleles[a].cn_config
         haps.append((cfg, sorted(present(gene, a, mi))))
         planted.append((a, mi))
-    nextra = rng.choice([0, 0, 0, 1, 1, 2])
+    # a gene without structural alleles has no copy-number calling: exactly two default copies are assumed (C03),
+    # so only two-copy genotypes are admissible for it
+    nextra = rng.choice([0, 0, 0, 1, 1, 2]) if gene.do_copy_number else 0
     if by_cfg.get("1"):
         for _ in range(nextra):
             pk = pick("1")
